@@ -453,6 +453,10 @@ def wrapping_docs():
         [dict(f(1, "a"), dir="skip:false,include:false"), f(2, "n"), dict(f(1, "n", "k2"), dir="include:true,skip:true"), dict(f(1, "n", "k3"), dir="include:true,skip:false"),
          dict(f(1, "n", "k4"), dir="skip:true,include:true"), dict(f(1, "nn", "k5"), dir="skip:false,include:true"), dict(f(1, "nn", "k6"), dir="include:false,skip:false")],
         [f(1, "node"), dict(on(2, "A"), dir="skip:false,include:false"), f(3, "n"), dict(on(2, "Node"), dir="include:true,skip:true"), f(3, "label"), dict(on(2, "B"), dir="include:true,skip:false"), f(3, "b"), f(2, "id")],
+        # plain-fn resolvers below lists and nullable parents
+        [f(1, "nodes"), on(2, "A"), f(3, "sy"), f(3, "syo"), f(2, "id")],
+        [f(1, "a"), f(2, "sy"), f(2, "kids"), on(3, "A"), f(4, "sy"), f(4, "n"), f(2, "syo", "z")],
+        [f(1, "ann"), f(2, "selfNN"), f(3, "sy"), f(2, "opt"), f(3, "sy"), f(3, "syo")],
         # derive(SimpleObject) with a flattened part
         [f(1, "simple"), f(2, "slabel"), f(2, "sid"), f(2, "snn"), f(2, "sints"), f(2, "sb"), f(2, "se"), f(2, "sf"), f(2, "sn"), f(2, "__typename")],
         [f(1, "a"), f(2, "simple"), f(3, "sb", "x"), f(3, "sid"), on(3, "S"), f(4, "sints"), f(4, "slabel"), f(2, "simple", "again"), f(3, "snn"), f(2, "n")],
